@@ -156,6 +156,100 @@ def run(ctx, F, cg):
             ctx.ok("R12d", "record-kinds", "importer dispatches on %s%s" % (sorted(ik), "" if ek else " (exporter kinds come from serde structs)"))
         else:
             ctx.anchor_failure("R12d", "record kind literals in the importer")
+    # ---- R12e: every exported node record carries both property tiers ---------------------------------------------
+    ctx.rule("R12e", "the exporter merges the column-store properties into every node record: within the node loop, every path from the loop head to the construction of the node record passes the read of the node's column keys (a read made conditional — e.g. only when the row map is empty — drops the column-only properties of mixed-tier nodes)")
+    exp_ = [r for p_, r in F.fns.items() if p_ == SNAP + "export_tenant_with_compression"]
+    if len(exp_) != 1:
+        ctx.anchor_failure("R12e", "snapshot::export_tenant_with_compression")
+    else:
+        er = exp_[0]
+        eb = Body(F.mir(er["path"]), er)
+        recs = [(i, line) for i, j, pl, rv, line, exp in eb.stmts() if rv[0] == "agg" and rv[1].endswith("SnapshotNode")]
+        colreads = {c.bb for c in eb.calls() if c.path.endswith("ColumnStore::get_property_keys")}
+        nexts = [c for c in eb.calls() if c.path.rsplit("::", 1)[-1] == "next" and c.expname == "ForLoop"]
+        ctx.floor("R12e", "node records built by the exporter", len(recs), 1)
+        for k, (ri, rline) in enumerate(recs):
+            # the loop over nodes: a for-loop head yielding &Node that dominates the record
+            doms = [c for c in nexts if eb.dominates(c.bb, ri) and c.target is not None and "graph::node::Node" in eb.local_ty(c.dest[0])]
+            head = doms[-1] if doms else None
+            inst = "export|node-record|%d" % k
+            if head is None:
+                ctx.anchor_failure("R12e", "loop head of the exporter's node loop")
+                continue
+            if not colreads:
+                ctx.violation("R12e", inst + "|columns-never-read", where(er, rline), "the exporter never reads the column store: properties of stub-loaded / imported nodes are not exported")
+            elif eb.must_pass(head.target, ri, colreads):
+                ctx.ok("R12e", inst, "every path from the loop head to the record passes ColumnStore::get_property_keys")
+            else:
+                ctx.violation("R12e", inst + "|columns-read-conditionally", where(er, rline),
+                              "a node record can be built without reading the node's column-store keys: a node with some properties in the row map and others only in the column store (stub-loaded then SET, or imported) loses the column-only ones on export")
+    # ---- R12f: the stub/full edge discriminator cannot drop an id ---------------------------------------------------
+    ctx.rule("R12f", "the id set that tells full relationships from adjacency-only ones holds every id put into it: either insert grows the bitmap, or every constructor sizes it from the maximum of the ids it inserts (a size taken from the number of ids is too small after deletions left gaps, and the dropped relationship is exported twice)")
+    ins = F.fn_opt("snapshot::EdgeIdSet::insert")
+    if ins is None:
+        ctx.anchor_failure("R12f", "snapshot::EdgeIdSet::insert")
+    else:
+        ib = Body(F.mir(ins["path"]), ins)
+        grows = any(c.path.rsplit("::", 1)[-1] in ("resize", "resize_with", "extend", "push") for c in ib.calls())
+        ctors = []
+        for p_, r_ in sorted(F.fns.items()):
+            if "::tests::" in p_ or not p_.startswith(SNAP):
+                continue
+            m_ = F.mir(p_)
+            if not m_:
+                continue
+            cb = Body(m_, r_)
+            for i, j, pl, rv, line, exp in cb.stmts():
+                if rv[0] == "agg" and rv[1].endswith("EdgeIdSet"):
+                    ctors.append((p_, r_, cb, rv, line))
+        ctx.floor("R12f", "constructions of EdgeIdSet", len(ctors), 1)
+        for p_, r_, cb, rv, line in ctors:
+            short = p_.replace(SNAP, "")
+            if grows:
+                ctx.ok("R12f", short, "insert grows the bitmap")
+                continue
+            o = rv[2][0]
+            og = cb.origins(o[1][0], through_calls=lambda c: list(range(len(c.args)))) if o[0] != "k" else []
+            names = {x[1].path.rsplit("::", 1)[-1] for x in og if x[0] in ("call", "via")}
+            if names & {"max", "max_by", "max_by_key", "fold", "last"}:
+                ctx.ok("R12f", short, "bitmap length derives from the maximum id (%s)" % sorted(names & {"max", "max_by", "max_by_key", "fold", "last"}))
+            else:
+                ctx.violation("R12f", short + "|bitmap-not-sized-by-max", where(r_, line),
+                              "EdgeIdSet::insert silently ignores an id beyond the bitmap, and %s sizes the bitmap from %s, not from the largest id: after deletions leave gaps a full relationship is not recognised and is written a second time as a property-less stub" % (short, sorted(names) or "a constant"))
+    # ---- R12g: no field of an exported record is a constant ----------------------------------------------------
+    ctx.rule("R12g", "every field of a record the exporter writes, other than the kind tag, is computed from the store: a field written as a constant (`reverse: false`, `measure_label: None`) cannot round-trip any other value, although the importer reads it back into the declaration")
+    if len(exp_) == 1:
+        n_rec = 0
+        for i, j, pl, rv, line, exp in eb.stmts():
+            if rv[0] != "agg":
+                continue
+            tyname = rv[1].rsplit("::", 1)[-1]
+            if tyname not in ("SnapshotHierarchyIndex", "SnapshotNode", "SnapshotEdge"):
+                continue
+            n_rec += 1
+            adt_ = F.adt("format::" + tyname)
+            fnames = [f[0] for f in adt_["variants"][0]["fields"]]
+            consts = []
+            for fname, o in zip(fnames, rv[2]):
+                if fname == "t":
+                    continue
+                if o[0] == "k":
+                    consts.append("%s = %s" % (fname, o[1].replace("const ", "").strip()))
+                    continue
+                # a local whose every definition is a constant / an empty aggregate
+                og = eb.origins(o[1][0])
+                kinds_ = {x[0] for x in og}
+                if kinds_ and kinds_ <= {"const"}:
+                    consts.append("%s = constant" % fname)
+                elif kinds_ and kinds_ <= {"agg", "const"} and all((x[0] != "agg") or (not x[2]) for x in og):
+                    consts.append("%s = %s" % (fname, [x[1] for x in og if x[0] == "agg"][0].rsplit("::", 2)[-1] if [x for x in og if x[0] == "agg"] else "constant"))
+            inst = "export|%s|%d" % (tyname, n_rec - 1)
+            if consts:
+                ctx.violation("R12g", inst + "|constant-field|" + consts[0].split(" =")[0], where(er, line),
+                              "the exporter writes %s with %s: whatever the store holds for it is lost in the round trip (the importer reads this field back)" % (tyname, "; ".join(consts)))
+            else:
+                ctx.ok("R12g", inst, "all %d non-tag fields are computed" % (len(fnames) - 1))
+        ctx.floor("R12g", "record constructions in the exporter", n_rec, 3)
     # ---- shared ------------------------------------------------------------------------------------------
     class Fwd(_Collect):
         def __init__(self, outer, rules):
